@@ -7,7 +7,8 @@ CONSTANTS
   Handles <- C_Handles
   DepSets <- C_DepSets
   HandlerSeqs <- C_HSeqs
-  UpRegs <- C_UpRegs
+  UpProgs <- C_UpProgs
+  CRProg <- C_CR
   QuitOn = FALSE
   QuitDeferred = FALSE
   DefCap = 0
